@@ -227,13 +227,18 @@ def run_machine(res: Result, r, n, grid=False):
         script = [("obs",)]
         nst = r.randrange(30, 90)
         press_at = {r.randrange(4, nst): r.choice(("KEY_Q", "KEY_A", "KEY_ENTER")) for _k in range(r.randrange(1, 3))} if keys else {}
+        # one run in five: the Python emulator is reset again after it has run for a while (reset point: the clock restarts
+        # at 0 and the timers must be armed relative to THAT; judged by the per-step target clause only)
+        reset_at = r.randrange(8, nst - 4) if fixed is None and r.random() < 0.2 else None
         for _s in range(nst):
             if _s in press_at:
                 script += [("press", press_at[_s]), ("obs",)]
+            if _s == reset_at:
+                script += [("pyreset",), ("wimem", 0xFC, 0), ("obs",)]
             script += [("step",), ("wimem", 0xFC, 0), ("obs",)]
-        jobs.append((scen, script, kind, p, q, en))
+        jobs.append((scen, script, kind, p, q, en, reset_at is not None))
     routs = machine.run_rust([(s, sc) for s, sc, *_ in jobs], key_codes())
-    for (scen, script, kind, p, q, en), (robs, rerr, _) in zip(jobs, routs):
+    for (scen, script, kind, p, q, en, has_reset), (robs, rerr, _) in zip(jobs, routs):
         pm = machine.PyMachine(scen)
         # invariant at a hook (Python): every call of the real scheduler's advance() is counted per source, so that a
         # multi-cycle WAIT can be checked for "one fire per boundary crossed" (the status bit alone cannot show a merge)
@@ -250,7 +255,9 @@ def run_machine(res: Result, r, n, grid=False):
             return out
         sched.advance = counting_advance
         pobs = pm.run(script)
-        if en and pobs:
+        if has_reset:
+            res.monitor("py_second_reset_runs")
+        if en and pobs and not has_reset:
             endc = pobs[-1]["cycles"]
             for name, per in (("MTI", p), ("STI", q)):
                 res.monitor("py_fires_per_boundary")
@@ -281,7 +288,7 @@ def run_machine(res: Result, r, n, grid=False):
                             bad = ("machine_next_target", {"timer": key, "next": nxt, "cycles": o["cycles"], "period": per})
                 if bad:
                     break
-            if not bad and en and steps:
+            if not bad and en and steps and not (has_reset and model == "py"):
                 last = steps[-1]
                 for bit, per, key in ((0, p, "next_mti"), (1, q, "next_sti")):
                     if per > 0:
